@@ -159,6 +159,22 @@ def run_history(case):
             raise Fail("history_accepted_%s_%s" % (kind, name), "step %d: parse_%s accepts a description with the fault '%s' after parsing %s; text:\n%s" %
                        (i, kind, name, [s["kind"] for s in case["steps"][:i]], bad))
         seen.append((kind, {l for _, _, l in RT.labels(kind, spec) if l}))
+        if stp.get("edit"):
+            # the returned object is the caller's: it is modified in place (as the library's in_place functions do) and the same text is parsed again -
+            # the second result must again be exactly the described automaton
+            extra = "zz_new"
+            try:
+                obj.Q.add(extra)
+                if kind != "tm":
+                    obj.F.add(extra)
+            except Exception:
+                pass
+            obj2 = lib(PARSE[kind], text)
+            got2 = RT.canon(kind, SNAP[kind](obj2))
+            if got2 != want:
+                diff = [k for k in want if got2.get(k) != want[k]]
+                raise Fail("history_reparse_" + kind, "step %d: parsing the same %s text again after the first result was modified in place gives a different automaton (fields %s: %r)" %
+                           (i, kind, diff, {k: got2.get(k) for k in diff}))
     return {"nt": cross > 0, "cls": ["steps_%d" % len(case["steps"])] + sorted({s["kind"] for s in case["steps"]}), "out": {"cross_format_labels": cross}}
 
 
@@ -168,7 +184,7 @@ def history_cases(draw, tier):
     for _ in range(draw(st.integers(2, 4))):
         kind = draw(st.sampled_from(RT.KINDS))
         spec = draw(GX.text_specs(kind, max_states=3))
-        steps.append({"kind": kind, "spec": spec, "layout": draw(GX.layouts(kind, spec))})
+        steps.append({"kind": kind, "spec": spec, "layout": draw(GX.layouts(kind, spec)), "edit": draw(st.integers(0, 2)) == 0})
     return {"steps": steps}
 
 
